@@ -1,8 +1,8 @@
 SPECIFICATION Spec
 CONSTANTS
   Thorough = FALSE
-  Den3 = 32
-  DenA = 16
+  Den3 = 48
+  DenA = 24
 INVARIANTS
   TokInv
   AstInv
